@@ -12,6 +12,7 @@ import math
 import os
 
 import extie
+import c02gauss
 import gridlib as gl
 import moments
 import vlib
@@ -94,6 +95,9 @@ def run(res, tier, seed, replay_script=None):
     vlib.proof_coverage(res, PID, props, "cd coq && make Props/Properties_C02.vo && coqc -Q . TV Props/Properties_C02.v", TRUSTED)
     ex_break = extie.run(res, PID)      # the exactness tables re-translated from the source, compared with the library and re-proved monotone / bounded
     proof_broken = (not props["ok"]) or bool(res.coverage["forbidden_tokens"])
+    if replay_script is None:
+        # Gauss rules: exactness to 2n-1 from the orthogonality of the node polynomial (Properties_C02_gauss.v); the hypotheses are evaluated on the library's nodes and weights
+        c02gauss.run(res, tier, seed)
     drv = vlib.build_driver("tsgdrv")
     wd = os.path.join(vlib.BUILD, "work", PID)
     os.makedirs(wd, exist_ok=True)
